@@ -731,6 +731,13 @@ func (r *proxyStreamReceiver) recvReplicationMessages(
 			// record last source exclusive high watermark (original id space)
 			r.ackMu.Lock()
 			r.lastExclusiveHighOriginal = attr.Messages.ExclusiveHighWatermark
+			// A target that is handed tasks must hold back the aggregated ack until it reports:
+			// register it at the first id routed to it (nothing below that id is owed by it).
+			for targetShardID, tasks := range tasksByTargetShard {
+				if _, ok := r.ackByTarget[targetShardID]; !ok {
+					r.ackByTarget[targetShardID] = tasks[0].SourceTaskId
+				}
+			}
 			r.ackMu.Unlock()
 
 			// update tracker for incoming messages
